@@ -103,6 +103,156 @@ pub fn c12_flush_contended(_sc: &Value) -> Value {
     json!({"violations": viol, "log": format!("filled {} b_blocked {} flush returned early {:?} delivered {}", filled, b_blocked, early, delivered)})
 }
 
+/// The socket refuses a datagram at flush time (non-blocking socket, peer queue full): the flush must report it.
+fn unix_buffered_wouldblock(_sc: &Value) -> Value {
+    use cadence::BufferedUnixMetricSink;
+    let mut viol: Vec<Value> = vec![];
+    let dir = temp_dir("unix-wb");
+    let path = dir.join("s.sock");
+    let _server = UnixDatagram::bind(&path).unwrap();
+    let client = UnixDatagram::unbound().unwrap();
+    client.set_nonblocking(true).unwrap();
+    let probe = client.try_clone().unwrap();
+    let mut filled = 0;
+    while probe.send_to(b"fill", &path).is_ok() && filled < 100000 {
+        filled += 1;
+    }
+    // control: the raw socket is refused right now
+    let control = probe.send_to(b"x", &path);
+    let sink = BufferedUnixMetricSink::with_capacity(&path, client, 64);
+    let r1 = sink.emit("a:1|c");
+    let f = sink.flush();
+    let big = format!("big.{}:1|c", "x".repeat(100));
+    let r2 = sink.emit(&big);
+    if control.as_ref().err().map(|e| e.kind()) == Some(std::io::ErrorKind::WouldBlock) {
+        if r1.is_ok() && f.is_ok() {
+            for prop in ["C13", "C07"] {
+                viol.push(json!({"prop": prop, "clause": "flush-returns-socket-error", "detail": "the peer's queue is full (a raw send returns WouldBlock) but flush() of the buffered Unix sink returned Ok(()) for a datagram that was not sent".to_string()}));
+            }
+        }
+        if r2.is_ok() {
+            for prop in ["C13", "C07"] {
+                viol.push(json!({"prop": prop, "clause": "returns-socket-error", "detail": "the peer's queue is full but an oversized emit (written directly) returned Ok".to_string()}));
+            }
+        }
+    }
+    let _ = std::fs::remove_dir_all(&dir);
+    json!({"violations": viol, "log": format!("filled {} control {:?} emit {:?} flush {:?} big {:?}", filled, control.map_err(|e| e.kind()), r1.map_err(|e| e.kind()), f.map_err(|e| e.kind()), r2.map_err(|e| e.kind()))})
+}
+
+/// A connected UDP socket whose peer port is closed: the datagram after the one that bounced is refused by the kernel
+/// (ECONNREFUSED); the buffered UDP sink's flush must report that.
+fn udp_buffered_refused(_sc: &Value) -> Value {
+    use cadence::BufferedUdpMetricSink;
+    let mut viol: Vec<Value> = vec![];
+    // a port that is closed: bind, read the address, drop
+    let closed = {
+        let s = UdpSocket::bind("127.0.0.1:0").unwrap();
+        s.local_addr().unwrap()
+    };
+    // control with a raw connected socket: first send is accepted, a later one reports the bounce
+    let raw = UdpSocket::bind("127.0.0.1:0").unwrap();
+    raw.connect(closed).unwrap();
+    let c1 = raw.send(b"x");
+    std::thread::sleep(Duration::from_millis(80));
+    let c2 = raw.send(b"y");
+    let sock = UdpSocket::bind("127.0.0.1:0").unwrap();
+    sock.connect(closed).unwrap();
+    let sink = BufferedUdpMetricSink::with_capacity(closed, sock, 64).unwrap();
+    let _ = sink.emit("d:1|c");
+    let f1 = sink.flush();
+    std::thread::sleep(Duration::from_millis(80));
+    let r2 = sink.emit("e:1|c");
+    let f2 = sink.flush();
+    let control_refused = c1.is_ok() && c2.as_ref().err().map(|e| e.kind()) == Some(std::io::ErrorKind::ConnectionRefused);
+    if control_refused && f1.is_ok() && r2.is_ok() && f2.is_ok() {
+        for prop in ["C13", "C07"] {
+            viol.push(json!({"prop": prop, "clause": "flush-returns-socket-error", "detail": "the kernel refuses the second datagram on a connected UDP socket whose peer port is closed (raw control: ConnectionRefused) but flush() of the buffered UDP sink returned Ok(())".to_string()}));
+        }
+    }
+    json!({"violations": viol, "log": format!("control {:?} {:?}; sink flush1 {:?} emit2 {:?} flush2 {:?}", c1.map_err(|e| e.kind()), c2.map_err(|e| e.kind()), f1.map_err(|e| e.kind()), r2.map_err(|e| e.kind()), f2.map_err(|e| e.kind()))})
+}
+
+/// Buffered sinks built without a capacity buffer 512 bytes: ten 51-byte lines (510 bytes) stay buffered, the eleventh
+/// pushes exactly those ten out as one 510-byte datagram.
+fn buffered_default_capacity(_sc: &Value) -> Value {
+    use cadence::{BufferedSpyMetricSink, BufferedUdpMetricSink, BufferedUnixMetricSink};
+    let mut viol: Vec<Value> = vec![];
+    let line = |i: usize| format!("m{:02}.{}:1|c", i, "x".repeat(42)); // 50 bytes + newline
+    let mut judge = |kind: &str, before: Vec<Vec<u8>>, after: Vec<Vec<u8>>| {
+        let sizes: Vec<usize> = after.iter().map(|d| d.len()).collect();
+        if !before.is_empty() || sizes != vec![510] {
+            for prop in ["C05", "C13"] {
+                viol.push(json!({"prop": prop, "clause": "capacity", "detail": format!(
+                    "{} built without a capacity: after ten 51-byte lines the wire saw {} datagram(s), after the eleventh datagram sizes {:?} (a 512-byte buffer gives none, then [510])",
+                    kind, before.len(), sizes)}));
+            }
+        }
+    };
+    {
+        let dir = temp_dir("defcap");
+        let path = dir.join("s.sock");
+        let server = UnixDatagram::bind(&path).unwrap();
+        server.set_nonblocking(true).unwrap();
+        let sink = BufferedUnixMetricSink::from(&path, UnixDatagram::unbound().unwrap());
+        let mut b = [0u8; 65536];
+        let mut drain = |srv: &UnixDatagram| {
+            let mut v = vec![];
+            std::thread::sleep(Duration::from_millis(50));
+            while let Ok(k) = srv.recv(&mut b) {
+                v.push(b[..k].to_vec());
+            }
+            v
+        };
+        for i in 0..10 {
+            let _ = sink.emit(&line(i));
+        }
+        let before = drain(&server);
+        let _ = sink.emit(&line(10));
+        let after = drain(&server);
+        judge("BufferedUnixMetricSink::from", before, after);
+        let _ = std::fs::remove_dir_all(&dir);
+    }
+    {
+        let server = UdpSocket::bind("127.0.0.1:0").unwrap();
+        server.set_nonblocking(true).unwrap();
+        let sink = BufferedUdpMetricSink::from(server.local_addr().unwrap(), UdpSocket::bind("127.0.0.1:0").unwrap()).unwrap();
+        let mut b = [0u8; 65536];
+        let mut drain = |srv: &UdpSocket| {
+            let mut v = vec![];
+            std::thread::sleep(Duration::from_millis(50));
+            while let Ok(k) = srv.recv(&mut b) {
+                v.push(b[..k].to_vec());
+            }
+            v
+        };
+        for i in 0..10 {
+            let _ = sink.emit(&line(i));
+        }
+        let before = drain(&server);
+        let _ = sink.emit(&line(10));
+        let after = drain(&server);
+        judge("BufferedUdpMetricSink::from", before, after);
+    }
+    {
+        let (rx, sink) = BufferedSpyMetricSink::new();
+        for i in 0..10 {
+            let _ = sink.emit(&line(i));
+        }
+        let mut before = vec![];
+        while let Ok(v) = rx.try_recv() {
+            before.push(v);
+        }
+        let _ = sink.emit(&line(10));
+        let mut after = vec![];
+        while let Ok(v) = rx.try_recv() {
+            after.push(v);
+        }
+        judge("BufferedSpyMetricSink::new", before, after);
+    }
+    json!({"violations": viol})
+}
+
 /// A buffered sink whose first flush fails (nobody listens at the path yet) must still deliver the accepted metric on the
 /// next flush, or when it is dropped.
 fn unix_buffered_retry(_sc: &Value) -> Value {
@@ -142,6 +292,9 @@ pub fn replay(sc: &Value) -> Value {
         "udp" => udp_unbuffered(sc),
         "stats-concurrent" => stats_concurrent(sc),
         "unix-buffered-retry" => unix_buffered_retry(sc),
+        "buffered-default-capacity" => buffered_default_capacity(sc),
+        "unix-buffered-wouldblock" => unix_buffered_wouldblock(sc),
+        "udp-buffered-refused" => udp_buffered_refused(sc),
         other => json!({"error": format!("unknown sink scenario {}", other)}),
     }
 }
@@ -287,9 +440,11 @@ fn udp_unbuffered(sc: &Value) -> Value {
     let sink = UdpMetricSink::from(&addrs[..], UdpSocket::bind("127.0.0.1:0").unwrap()).unwrap();
     let mut viol: Vec<Value> = vec![];
     let mut add = |prop: &str, clause: &str, detail: String| viol.push(json!({"prop": prop, "clause": clause, "detail": detail}));
-    let (mut okp, mut okb) = (0u64, 0u64);
+    let (mut okp, mut okb, mut errp, mut errb) = (0u64, 0u64, 0u64, 0u64);
     for (i, len) in lens.iter().enumerate() {
-        let m = metric(i, (*len).min(1400));
+        // datagrams above 65507 bytes are refused by the kernel (EMSGSIZE): a failing send that CAN be arranged on loopback
+        let m = metric(i, (*len).min(70000));
+        let too_big = m.len() > 65507;
         match sink.emit(&m) {
             Ok(n) => {
                 okp += 1;
@@ -297,19 +452,33 @@ fn udp_unbuffered(sc: &Value) -> Value {
                 if n != m.len() {
                     add("C13", "returns-socket-result", format!("emit returned Ok({}) for a datagram of {} bytes", n, m.len()));
                 }
-                let mut b = [0u8; 65536];
+                let mut b = vec![0u8; 70000];
                 match server.recv(&mut b) {
                     Ok(k) if &b[..k] == m.as_bytes() => {}
-                    Ok(k) => add("C13", "payload", format!("datagram {:?} differs from the metric {:?}", String::from_utf8_lossy(&b[..k]), m)),
+                    Ok(k) => add("C13", "payload", format!("datagram {:?} differs from the metric {:?}", String::from_utf8_lossy(&b[..k.min(80)]), &m[..m.len().min(80)])),
                     Err(e) => add("C13", "destination", format!("no datagram arrived at the first resolved address: {}", e)),
                 }
             }
-            Err(e) => add("C13", "returns-socket-result", format!("loopback send failed: {}", e)),
+            Err(e) => {
+                errp += 1;
+                errb += m.len() as u64;
+                if !too_big {
+                    add("C13", "returns-socket-result", format!("loopback send failed: {}", e));
+                } else {
+                    // the raw socket's verdict for the same datagram
+                    let raw = UdpSocket::bind("127.0.0.1:0").unwrap();
+                    if let Err(re) = raw.send_to(m.as_bytes(), addr) {
+                        if re.kind() != e.kind() {
+                            add("C13", "returns-socket-error", format!("a {}-byte datagram: the socket's error is {:?} but emit returned {:?}", m.len(), re.kind(), e.kind()));
+                        }
+                    }
+                }
+            }
         }
     }
     let st = sink.stats();
-    if st.packets_sent != okp || st.bytes_sent != okb || st.packets_dropped != 0 || st.bytes_dropped != 0 {
-        add("C14", "packets", format!("stats {:?} but {} datagrams / {} bytes were accepted", st, okp, okb));
+    if st.packets_sent != okp || st.bytes_sent != okb || st.packets_dropped != errp || st.bytes_dropped != errb {
+        add("C14", "packets", format!("stats {:?} but the emits returned Ok for {} datagrams / {} bytes and Err for {} datagrams / {} bytes", st, okp, okb, errp, errb));
     }
     json!({"violations": viol})
 }
@@ -377,6 +546,7 @@ pub fn c12_stress(sc: &Value) -> Value {
         let cap = [64usize, 50, 33, 128, 47, 96][round % 6];
         let stop = Arc::new(std::sync::atomic::AtomicBool::new(false));
         let st2 = stop.clone();
+        let cnt = Arc::new(std::sync::atomic::AtomicUsize::new(0));
         // datagrams can be lost on a loopback UDP socket whose receive buffer overflows: presence is not demanded there
         let lossy = kind == "BufferedUdpMetricSink";
         let (sink, reader): (Arc<dyn MetricSink + Send + Sync>, std::thread::JoinHandle<Vec<Vec<u8>>>) = match kind {
@@ -384,12 +554,16 @@ pub fn c12_stress(sc: &Value) -> Value {
                 let server = UnixDatagram::bind(&path).unwrap();
                 server.set_read_timeout(Some(Duration::from_millis(400))).unwrap();
                 let sink = Arc::new(BufferedUnixMetricSink::with_capacity(&path, UnixDatagram::unbound().unwrap(), cap));
+                let cnt2 = cnt.clone();
                 let reader = std::thread::spawn(move || {
                     let mut got: Vec<Vec<u8>> = vec![];
                     let mut b = [0u8; 65536];
                     loop {
                         match server.recv(&mut b) {
-                            Ok(k) => got.push(b[..k].to_vec()),
+                            Ok(k) => {
+                                got.push(b[..k].to_vec());
+                                cnt2.fetch_add(1, std::sync::atomic::Ordering::SeqCst);
+                            }
                             Err(_) => {
                                 if st2.load(std::sync::atomic::Ordering::SeqCst) {
                                     break;
@@ -406,12 +580,16 @@ pub fn c12_stress(sc: &Value) -> Value {
                 server.set_read_timeout(Some(Duration::from_millis(400))).unwrap();
                 let addr = server.local_addr().unwrap();
                 let sink = Arc::new(BufferedUdpMetricSink::with_capacity(addr, UdpSocket::bind("127.0.0.1:0").unwrap(), cap).unwrap());
+                let cnt2 = cnt.clone();
                 let reader = std::thread::spawn(move || {
                     let mut got: Vec<Vec<u8>> = vec![];
                     let mut b = [0u8; 65536];
                     loop {
                         match server.recv(&mut b) {
-                            Ok(k) => got.push(b[..k].to_vec()),
+                            Ok(k) => {
+                                got.push(b[..k].to_vec());
+                                cnt2.fetch_add(1, std::sync::atomic::Ordering::SeqCst);
+                            }
                             Err(_) => {
                                 if st2.load(std::sync::atomic::Ordering::SeqCst) {
                                     break;
@@ -426,11 +604,15 @@ pub fn c12_stress(sc: &Value) -> Value {
             _ => {
                 let (rx, spy) = BufferedSpyMetricSink::with_capacity(None, Some(cap));
                 let sink = Arc::new(spy);
+                let cnt2 = cnt.clone();
                 let reader = std::thread::spawn(move || {
                     let mut got: Vec<Vec<u8>> = vec![];
                     loop {
                         match rx.recv_timeout(Duration::from_millis(400)) {
-                            Ok(v) => got.push(v),
+                            Ok(v) => {
+                                got.push(v);
+                                cnt2.fetch_add(1, std::sync::atomic::Ordering::SeqCst);
+                            }
                             Err(_) => {
                                 if st2.load(std::sync::atomic::Ordering::SeqCst) {
                                     break;
@@ -467,6 +649,15 @@ pub fn c12_stress(sc: &Value) -> Value {
                 (acked, panicked)
             }));
         }
+        // a thread flushing concurrently with the emitters
+        let emitting = Arc::new(std::sync::atomic::AtomicBool::new(true));
+        let (s_f, e_f) = (sink.clone(), emitting.clone());
+        let flusher = std::thread::spawn(move || {
+            while e_f.load(std::sync::atomic::Ordering::SeqCst) {
+                let _ = std::panic::catch_unwind(std::panic::AssertUnwindSafe(|| s_f.flush()));
+                std::thread::yield_now();
+            }
+        });
         let mut acked_all: Vec<Vec<String>> = vec![];
         let mut any_panic = false;
         for h in hs {
@@ -474,10 +665,29 @@ pub fn c12_stress(sc: &Value) -> Value {
             acked_all.push(a);
             any_panic |= p;
         }
+        emitting.store(false, std::sync::atomic::Ordering::SeqCst);
+        let _ = flusher.join();
         let fl = std::panic::catch_unwind(std::panic::AssertUnwindSafe(|| sink.flush()));
         std::thread::sleep(Duration::from_millis(300));
+        // everything acknowledged must be on the wire now; what only leaves when the sink is dropped was stuck behind an Ok flush
+        let n_before_drop = cnt.load(std::sync::atomic::Ordering::SeqCst);
+        let final_flush_ok = matches!(fl, Ok(Ok(())));
+        drop(sink);
+        std::thread::sleep(Duration::from_millis(200));
         stop.store(true, std::sync::atomic::Ordering::SeqCst);
         let got = reader.join().unwrap();
+        if final_flush_ok && got.len() > n_before_drop {
+            let late: Vec<String> = got[n_before_drop..].iter().map(|d| String::from_utf8_lossy(d).to_string()).collect();
+            let acked_flat: std::collections::HashSet<&String> = acked_all.iter().flatten().collect();
+            let stuck: Vec<&str> = late.iter().flat_map(|t| t.split('\n')).filter(|l| !l.is_empty() && acked_flat.contains(&l.to_string())).collect();
+            if !stuck.is_empty() {
+                for prop in ["C12", "C06"] {
+                    viol.push(json!({"prop": prop, "clause": "flush-leaves-acked-buffered", "detail": format!(
+                        "round {} ({}, capacity {}): flush() returned Ok after all emitters finished, yet {} acknowledged metric(s) (e.g. {:?}) only left the sink when it was dropped",
+                        round, kind, cap, stuck.len(), stuck[0])}));
+                }
+            }
+        }
         let _ = std::fs::remove_dir_all(&dir);
         if any_panic || fl.is_err() {
             viol.push(json!({"prop": "C12", "clause": "no-panic", "detail": format!("round {} ({}, capacity {}): an emit / flush panicked under concurrent use", round, kind, cap)}));
